@@ -4,10 +4,15 @@ Tie (correspondence): the REAL adapters `replicat.backends.local.Local`, `s3c.S3
 `download_stream` while a *fault plan* (one fault per attempt: kind × position inside the transfer; `harness/impl/faults.py`) is
 executed against them — the local adapter through wrapped `open` / `os.replace` and failing payload / sink streams, the S3 and B2
 adapters through `FaultTransport` in front of the in-process fake services (`fake_s3.py`, `fake_b2.py`; SigV4, Content-Length and
-the payload hash are verified by the fakes), which pulls the request body chunk by chunk like a socket would.  Back-off sleeps are
+the payload hash are verified by the fakes), which pulls the request body chunk by chunk like a socket would.  A local fault carries
+the CLASS of OSError it surfaces with (errno: ENOENT → FileNotFoundError, EACCES → PermissionError, ENOSPC, ESTALE, … — the universe
+the extractor tabulates the local decorator's `giveup=` predicate over) and ENOENT faults also come as a STATE of the directory
+instead of a raised exception (the object's fresh, empty directory removed again before the temp file is created — a concurrent
+`clean`; the temp file gone before the rename; the object away for one attempt of a download), so that the OS raises the error
+itself; an HTTP transport fault carries the httpx exception class (timeouts, protocol errors, …).  Back-off sleeps are
 patched to zero and RECORDED.  The payload / sink is handed over inside replicat's own stream wrappers (`TQDMIOReader/Writer`,
 `_RateLimitedFileWrapper`), which must forward `seek` / `truncate`.  The compiled Lean model (`retry.run`) runs the same plan.
-Compared, per case: outcome (ok / exception class), number of attempts the service (or the directory) saw, number of back-off
+Compared, per case: outcome (ok / exception class, errno of a final OSError), number of attempts the service (or the directory) saw, number of back-off
 sleeps, number of re-authentications, bytes that reached the other side in every attempt, the visible object after every attempt
 (uploads), the final object / sink content, the final stream position, temp files left behind.
 
@@ -15,9 +20,11 @@ Direct oracle (the property's own statement on the real outputs): after a succes
 no attempt leaves a partial object visible (directory, service, and the adapter's own exists / list / download afterwards) or a
 temp file behind; never more attempts than injected faults plus one; fewer transient faults than the retry budget ⇒ success; never more attempts than the budget, persistent faults
 end in an error.  The B2 re-authentication recursion (defect candidate D9) is reported by this oracle with the signature
-`b2:unbounded-reauth:status-<code>`.
+`b2:unbounded-reauth:status-<code>`.  `Local.upload` / `Local.download` (the non-streaming methods, same decorator) are probed with the
+same fault places × errno classes by the direct oracle only (`local_plain_probes`).
 """
 import asyncio
+import errno as errno_mod
 import io
 import json
 import os
@@ -33,6 +40,14 @@ KEY, SEC, REGION, HOST = 'AKIDEXAMPLE', 'wJalrXUtnFEMI/K7MDENG+bPxRfiCYEXAMPLEKE
 B2ID, B2KEY = '0012ab34cd56ef', 'K001secretsecretsecret'
 LIMIT = 40                      # attempts after which a run counts as not terminating (model: fuel)
 TRANSIENT_STATUS = (500, 503, 429, 408)
+ENOENT = errno_mod.ENOENT
+OS_UNIVERSE_DEFAULT = [0, 1, 2, 4, 5, 11, 13, 16, 17, 20, 21, 24, 28, 30, 32, 104, 110, 116, 122]
+STATE_PLACES = {'up': ('mktemp', 'pre', 'rename'), 'down': ('pre',)}      # where an ENOENT can be a state of the directory
+TRANSPORT_KIND = {'pre': 'connect', 'mid': 'send', 'lost': 'lost', 'cut': 'cut'}
+
+
+def errno_name(k):
+    return 'default-EIO' if k is None else 'none' if k == 0 else errno_mod.errorcode.get(k, str(k))
 
 # ------------------------------------------------------------------------------------------------ sleeps
 SLEEPS = []
@@ -78,15 +93,27 @@ def to_injection(backend, direction, f):
     k = f['kind']
     if backend == 'local':
         if direction == 'up':
-            return {'pre': {'kind': 'open'}, 'mktemp': {'kind': 'mktemp'}, 'rename': {'kind': 'rename'},
-                    'src': {'kind': 'src', 'j': f.get('j')}, 'mid': {'kind': 'write', 'j': f.get('j')}}.get(k, {'kind': 'none'})
-        return {'pre': {'kind': 'open'}, 'trunc': {'kind': 'truncate'}, 'mid': {'kind': 'read', 'j': f.get('j')},
-                'sink': {'kind': 'sink', 'j': f.get('j')}}.get(k, {'kind': 'none'})
+            inj = {'pre': {'kind': 'open'}, 'mktemp': {'kind': 'mktemp'}, 'rename': {'kind': 'rename'},
+                   'src': {'kind': 'src', 'j': f.get('j')}, 'mid': {'kind': 'write', 'j': f.get('j')}}.get(k, {'kind': 'none'})
+        else:
+            inj = {'pre': {'kind': 'open'}, 'trunc': {'kind': 'truncate'}, 'mid': {'kind': 'read', 'j': f.get('j')},
+                   'sink': {'kind': 'sink', 'j': f.get('j')}}.get(k, {'kind': 'none'})
+        inj = dict(inj)
+        if f.get('errno') is not None:
+            inj['errno'] = f['errno']                      # class of OSError (absent: EIO)
+        if f.get('state') and f.get('errno') == ENOENT and k in STATE_PLACES[direction]:
+            inj['state'] = True                            # the directory changes, the OS raises
+        return inj
     if direction == 'up':
-        return {'pre': {'kind': 'connect'}, 'mid': {'kind': 'send', 'j': f.get('j')}, 'lost': {'kind': 'lost'},
-                'status': {'kind': 'status', 'code': f.get('code'), 'retry_after': 3 if f.get('ra') else None}}.get(k, {'kind': 'none'})
-    return {'pre': {'kind': 'connect'}, 'cut': {'kind': 'cut', 'k': f.get('k')},
-            'status': {'kind': 'status', 'code': f.get('code'), 'retry_after': 3 if f.get('ra') else None}}.get(k, {'kind': 'none'})
+        inj = {'pre': {'kind': 'connect'}, 'mid': {'kind': 'send', 'j': f.get('j')}, 'lost': {'kind': 'lost'},
+               'status': {'kind': 'status', 'code': f.get('code'), 'retry_after': 3 if f.get('ra') else None}}.get(k, {'kind': 'none'})
+    else:
+        inj = {'pre': {'kind': 'connect'}, 'cut': {'kind': 'cut', 'k': f.get('k')},
+               'status': {'kind': 'status', 'code': f.get('code'), 'retry_after': 3 if f.get('ra') else None}}.get(k, {'kind': 'none'})
+    inj = dict(inj)
+    if f.get('exc') and inj['kind'] in faults.TRANSPORT_EXC:
+        inj['exc'] = f['exc']                              # httpx exception class of the broken connection
+    return inj
 
 
 def classify(e):
@@ -128,6 +155,7 @@ def wrap_writer(stream, how):
 # ------------------------------------------------------------------------------------------------ real runs
 def _finish_obs(obs, plan, exc):
     obs['outcome'] = 'ok' if exc is None else classify(exc)
+    obs['oserrno'] = (exc.errno or 0) if obs['outcome'] == 'os' else None
     obs['attempts'] = min(plan.attempts, LIMIT)
     obs['sleeps'] = len(SLEEPS)
     obs['received'] = plan.received[:LIMIT]
@@ -175,7 +203,7 @@ def run_local(case, scratch):
         src = faults.Payload(data, plan)
         src.seek(case.get('pos0', 0))
         del src.seeks[:]
-        with faults.LocalInjector(root, plan, 'upload'):
+        with faults.LocalInjector(root, plan, 'upload') as inj:
             try:
                 b.upload_stream(NAME, wrap_reader(src, len(data), case.get('wrap', 'tqdm')), case.get('declared', len(data)), case['chunk'])
             except (Exception, faults.Watchdog, RecursionError) as e:  # noqa: BLE001
@@ -198,7 +226,7 @@ def run_local(case, scratch):
             sink = faults.MemSink(sink0, plan)
         sink.seek(case.get('spos', 0))
         del sink.seeks[:]
-        with faults.LocalInjector(root, plan, 'download'):
+        with faults.LocalInjector(root, plan, 'download') as inj:
             try:
                 b.download_stream(NAME, wrap_writer(sink, case.get('wrap', 'tqdm')), case['chunk'])
             except (Exception, faults.Watchdog, RecursionError) as e:  # noqa: BLE001
@@ -208,8 +236,10 @@ def run_local(case, scratch):
             sink.close()
     obs = _finish_obs(obs, plan, exc)
     obs['reauths'] = 0
+    obs['state_faults'] = inj.state_faults              # faults the OS raised by itself after the directory was changed
     if case['dir'] == 'down':
         obs['received'] = None       # per-attempt byte counts of a download are compared through the sink content
+        obs['object_intact'] = dest.exists() and dest.read_bytes() == data
     return obs
 
 
@@ -342,7 +372,7 @@ def model_request(case):
 def compare(case, obs, m):
     """fields on which model and implementation must agree → list of (field, model, impl)"""
     diffs = []
-    fields = ['outcome', 'attempts', 'sleeps', 'reauths', 'pos']
+    fields = ['outcome', 'attempts', 'sleeps', 'reauths', 'pos'] + (['oserrno'] if 'oserrno' in m else [])
     if case['dir'] == 'up':
         fields += ['received', 'visible', 'history', 'temps']
     else:
@@ -395,6 +425,8 @@ def oracle(case, obs, cfg):
     else:
         if ok and obs['sink'] != payload:
             bad.append((f'{pre}:delivered-differs-after-success', f'download_stream returned normally but the sink holds {short(obs["sink"])} instead of {short(payload)}'))
+        if obs.get('object_intact') is False:
+            bad.append((f'{pre}:object-damaged-by-download', 'after download_stream the stored object is missing or differs from what was stored'))
     if obs['outcome'].startswith('other:'):
         bad.append((f'{pre}:unexpected-exception', f'{obs.get("exception")}'))
     all_transient = all(transient(f) for f in plan)
@@ -415,6 +447,30 @@ def oracle(case, obs, cfg):
         else:
             bad.append((f'{pre}:attempts-exceed-budget', f'{obs["attempts"]} attempts (outcome {obs["outcome"]}) with a bound of {bound} (max_tries = {budget or None})'))
     return bad
+
+
+STATE_TEXT = {('up', 'mktemp'): 'the object\'s freshly created, empty directory is removed again before the temp file is created in it (a concurrent clean does that)',
+              ('up', 'pre'): 'the temp file and its empty directory vanish before the temp file is opened for writing',
+              ('up', 'rename'): 'the temp file vanishes before os.replace',
+              ('down', 'pre'): 'the object is away while this attempt opens it and back for the next attempt'}
+
+
+def describe_classes(case, obs):
+    """what the error classes of a local plan mean, in words"""
+    notes = []
+    for f in case['plan']:
+        if case['backend'] == 'local' and f.get('state') and (case['dir'], f['kind']) in STATE_TEXT:
+            t = 'fault "%s" as a state of the directory: %s — %s' % (f['kind'], STATE_TEXT[(case['dir'], f['kind'])],
+                                                                     'the OS raised FileNotFoundError itself' if obs.get('state_faults') else 'directory not empty here, raised by the injector')
+        elif case['backend'] == 'local' and f.get('errno') is not None:
+            t = 'errno %s = %s' % (f['errno'], type(faults.oserror('x', f['errno'])).__name__ + ('' if not f['errno'] else '/' + errno_name(f['errno'])))
+        elif f.get('exc'):
+            t = 'httpx.' + f['exc']
+        else:
+            continue
+        if t not in notes:
+            notes.append(t)
+    return (' [' + '; '.join(notes[:3]) + ']') if notes else ''
 
 
 def short(x, n=48):
@@ -470,9 +526,26 @@ def inside(f, length, chunk):
     return False
 
 
-def gen_cases(r, tier, budgets):
+def with_class(r, backend, direction, f, universe):
+    """a fault of the grid with a randomly chosen CLASS: errno (local; ENOENT also as a state of the directory) / httpx exception (HTTP)"""
+    f = dict(f)
+    if backend == 'local':
+        q = r.random()
+        if q < 0.25:
+            f['errno'] = ENOENT
+        elif q < 0.6:
+            f['errno'] = r.choice(universe)
+        if f.get('errno') == ENOENT and f['kind'] in STATE_PLACES[direction] and r.random() < 0.5:
+            f['state'] = True
+    elif f['kind'] in TRANSPORT_KIND and r.random() < 0.5:
+        f['exc'] = r.choice(faults.TRANSPORT_EXC[TRANSPORT_KIND[f['kind']]])
+    return f
+
+
+def gen_cases(r, tier, budgets, universe=None):
     cases = []
     quick = tier == 'quick'
+    universe = list(universe or OS_UNIVERSE_DEFAULT)
     sizes = [(5, 23), (3, 9)] if quick else [(5, 23), (3, 9), (4, 1), (7, 40), (2, 11)]
     for backend in ('local', 's3', 'b2'):
         budget = budgets[backend]
@@ -489,13 +562,69 @@ def gen_cases(r, tier, budgets):
                             c['sink'] = payload_bytes(r, r.choice([0, 2, length, length + 4])).hex()
                             c['file'] = r.random() < 0.3
                         cases.append(c)
+    # classes of errors.  Local: every fault place × every errno class of the universe the give-up predicate of the decorator is
+    # tabulated over (1, budget-1 — the last count that must be masked — and budget repetitions); ENOENT additionally as a STATE of
+    # the directory (the OS raises it itself) with 1 … budget+1 repetitions.  HTTP: every transport fault × every httpx exception class.
+    budget = budgets['local']
+    reps_set = sorted({n for n in (1, budget - 1, budget) if n >= 1})
+    for direction in ('up', 'down'):
+        for chunk, length in sizes[:2]:
+            data = payload_bytes(r, length)
+            for kind in STATE_PLACES[direction]:
+                for reps in range(1, budget + 2):
+                    for old in ((None, payload_bytes(r, 2).hex()) if direction == 'up' else (None,)):
+                        # old = None: the object's directory is fresh and empty, it CAN vanish; otherwise the injector falls back to raising
+                        c = {'backend': 'local', 'dir': direction, 'data': data.hex(), 'chunk': chunk,
+                             'plan': [{'kind': kind, 'errno': ENOENT, 'state': True}] * reps, 'wrap': r.choice(['tqdm', 'raw'])}
+                        if direction == 'up':
+                            c['old'] = old
+                        else:
+                            c['sink'] = payload_bytes(r, r.choice([0, length + 4])).hex()
+                            c['file'] = r.random() < 0.5
+                        cases.append(c)
+        for chunk, length in (sizes[:1] if quick else sizes[:2]):
+            data = payload_bytes(r, length)
+            grid = fault_grid('local', direction, length, chunk, not quick)
+            by_kind = {}
+            for f in grid:
+                by_kind.setdefault(f['kind'], []).append(f)
+            for ki, k in enumerate(universe):
+                for ri, reps in enumerate(reps_set):
+                    # thorough: every place × class; quick: every KIND of place × class, the position inside the transfer rotating
+                    places = grid if not quick else [fs[(ki + ri + n) % len(fs)] for n, fs in enumerate(by_kind.values())]
+                    for f in places:
+                        c = {'backend': 'local', 'dir': direction, 'data': data.hex(), 'chunk': chunk, 'plan': [dict(f, errno=k)] * reps,
+                             'wrap': r.choice(['tqdm', 'tqdm+rate', 'raw'])}
+                        if direction == 'up':
+                            c['old'] = r.choice([None, payload_bytes(r, r.choice([1, length + 3])).hex()])
+                        else:
+                            c['sink'] = payload_bytes(r, r.choice([0, 2, length, length + 4])).hex()
+                            c['file'] = r.random() < 0.3
+                        cases.append(c)
+    for backend in ('s3', 'b2'):
+        budget = budgets[backend]
+        for direction in ('up', 'down'):
+            chunk, length = sizes[0]
+            data = payload_bytes(r, length)
+            for f in fault_grid(backend, direction, length, chunk, False):
+                if f['kind'] not in TRANSPORT_KIND or f.get('j', 1) not in (1, 2) or f.get('k', chunk) not in (chunk, length // 2):
+                    continue
+                for exc in faults.TRANSPORT_EXC[TRANSPORT_KIND[f['kind']]]:
+                    for reps in sorted({n for n in (1, budget - 1, budget) if n >= 1}):
+                        c = {'backend': backend, 'dir': direction, 'data': data.hex(), 'chunk': chunk, 'plan': [dict(f, exc=exc)] * reps, 'wrap': 'tqdm'}
+                        if direction == 'up':
+                            c['old'] = r.choice([None, payload_bytes(r, 3).hex()])
+                        else:
+                            c['sink'] = payload_bytes(r, r.choice([0, length + 4])).hex()
+                        cases.append(c)
     # persistent faults: far more repetitions than any budget (the run must end in an error long before the plan is used up)
     for backend in ('local', 's3', 'b2'):
         for direction in ('up', 'down'):
             chunk, length = 4, 14
             data = payload_bytes(r, length)
             if backend == 'local':
-                kinds = [{'kind': 'pre'}, {'kind': 'mid', 'j': 2}, {'kind': 'rename'} if direction == 'up' else {'kind': 'sink', 'j': 1}]
+                kinds = [{'kind': 'pre'}, {'kind': 'mid', 'j': 2}, {'kind': 'rename'} if direction == 'up' else {'kind': 'sink', 'j': 1},
+                         {'kind': 'mktemp' if direction == 'up' else 'pre', 'errno': ENOENT, 'state': True}, {'kind': 'mid', 'j': 1, 'errno': errno_mod.ENOSPC}]
             else:
                 kinds = [{'kind': 'pre'}, {'kind': 'mid', 'j': 2} if direction == 'up' else {'kind': 'cut', 'k': 9}, {'kind': 'status', 'code': 429},
                          {'kind': 'status', 'code': 503}, {'kind': 'status', 'code': 401 if backend == 'b2' else 404}]
@@ -515,7 +644,7 @@ def gen_cases(r, tier, budgets):
         length = r.choice([0, 1, chunk - 1, chunk, chunk + 1, 3 * chunk, 3 * chunk + 1, r.randint(0, 6 * chunk)])
         data = payload_bytes(r, max(0, length))
         grid = fault_grid(backend, direction, len(data), chunk, True)
-        plan = [r.choice(grid) for _ in range(r.choice([0, 1, 2, 2, 3, 3, 4, 5, 6, 9]))]
+        plan = [with_class(r, backend, direction, r.choice(grid), universe) for _ in range(r.choice([0, 1, 2, 2, 3, 3, 4, 5, 6, 9]))]
         c = {'backend': backend, 'dir': direction, 'data': data.hex(), 'chunk': chunk, 'plan': plan, 'wrap': r.choice(['tqdm', 'tqdm+rate', 'raw'])}
         if direction == 'up':
             c['old'] = r.choice([None, payload_bytes(r, r.randint(0, 9)).hex()])
@@ -568,6 +697,99 @@ def nested_url_probes(out, budget):
             if reps >= budget * budget and exc is None:
                 out.violation('b2:up:attempts-exceed-budget', f'persistent faults on b2_get_upload_url did not end in an error ({plan.attempts} requests)', rp)
             _ = case
+
+
+def run_plain(probe, scratch):
+    """one call of `Local.upload(name, data)` / `Local.download(name)` under a fault plan → what happened"""
+    from replicat.backends.local import Local
+    data, old = bytes.fromhex(probe['data']), (None if probe.get('old') is None else bytes.fromhex(probe['old']))
+    root = scratch / 'repo'
+    shutil.rmtree(scratch, ignore_errors=True)
+    root.mkdir(parents=True)
+    dest = root / NAME
+    b = Local(str(root))
+    plan = faults.Plan(probe['plan'], limit=LIMIT)
+    del SLEEPS[:]
+    exc = returned = None
+    if probe['op'] == 'upload':
+        if old is not None:
+            dest.parent.mkdir(parents=True)
+            dest.write_bytes(old)
+        with faults.LocalInjector(root, plan, 'upload') as inj:
+            try:
+                b.upload(NAME, data)
+            except (Exception, faults.Watchdog, RecursionError) as e:  # noqa: BLE001
+                exc = e
+    else:
+        dest.parent.mkdir(parents=True)
+        dest.write_bytes(data)
+        with faults.LocalInjector(root, plan, 'download') as inj:
+            try:
+                returned = b.download(NAME)
+            except (Exception, faults.Watchdog, RecursionError) as e:  # noqa: BLE001
+                exc = e
+    stored = dest.read_bytes() if dest.exists() else None
+    return {'outcome': 'ok' if exc is None else classify(exc), 'oserrno': (exc.errno or 0) if isinstance(exc, OSError) else None,
+            'attempts': min(plan.attempts, LIMIT), 'sleeps': len(SLEEPS), 'stored': None if stored is None else stored.hex(),
+            'returned': None if returned is None else returned.hex(), 'state_faults': inj.state_faults,
+            'temps': sum(1 for _, _, fs in os.walk(root) for f in fs if f.endswith('.tmp')),
+            'exception': None if exc is None else repr(exc)[:200]}
+
+
+def oracle_plain(probe, obs, budget):
+    """C12 for the non-streaming local methods: [(sig, what)]"""
+    bad = []
+    op, n = probe['op'], len(probe['plan'])
+    pre = f'local:{op}'
+    ok = obs['outcome'] == 'ok'
+    if n < budget and not ok:
+        bad.append((f'{pre}:transient-fault-not-masked', f'{n} transient fault(s) with a budget of {budget} tries, yet Local.{op} ended with {obs["exception"]} after {obs["attempts"]} attempt(s)'))
+    if ok and op == 'upload' and obs['stored'] != probe['data']:
+        bad.append((f'{pre}:stored-differs-after-success', f'Local.upload returned normally but the object holds {short(obs["stored"])}'))
+    if ok and op == 'download' and obs['returned'] != probe['data']:
+        bad.append((f'{pre}:delivered-differs-after-success', f'Local.download returned {short(obs["returned"])}'))
+    if op == 'upload' and obs['stored'] not in (probe.get('old'), probe['data']):
+        bad.append((f'{pre}:partial-object-visible', f'the object holds {short(obs["stored"])} — neither the previous object nor the payload'))
+    if op == 'download' and obs['stored'] != probe['data']:
+        bad.append((f'{pre}:object-damaged-by-download', 'the stored object is missing or differs after Local.download'))
+    if obs['temps']:
+        bad.append((f'{pre}:temp-file-left-behind', f'{obs["temps"]} temporary file(s) left in the repository directory'))
+    if obs['attempts'] > n + 1:
+        bad.append((f'{pre}:attempt-without-fault', f'{obs["attempts"]} attempts for {n} injected fault(s)'))
+    if obs['attempts'] > budget or obs['outcome'] == 'fuel' or (n >= budget and ok):
+        bad.append((f'{pre}:attempts-exceed-budget', f'{obs["attempts"]} attempts, outcome {obs["outcome"]}, for {n} consecutive faults (max_tries = {budget})'))
+    if obs['outcome'].startswith('other:'):
+        bad.append((f'{pre}:unexpected-exception', str(obs['exception'])))
+    return bad
+
+
+def local_plain_probes(out, budget, universe, scratch):
+    """`Local.upload` / `Local.download` — the non-streaming methods behind the same back-off decorator (snapshot objects, keys, the
+    config go through them): every fault place × every errno class (ENOENT also as a state of the directory) × 1, budget-1, budget,
+    budget+3 consecutive faults; direct oracle only (the model covers the streaming methods)."""
+    data = bytes((i * 5 + 3) % 251 for i in range(37))
+    reps_set = sorted({n for n in (1, budget - 1, budget, budget + 3) if n >= 1})
+    for op, places in (('upload', ('mktemp', 'open', 'write', 'rename')), ('download', ('open', 'read'))):
+        state_places = {'upload': ('mktemp', 'open', 'rename'), 'download': ('open',)}[op]
+        for place in places:
+            for k in [None] + list(universe):
+                for state in ((True, False) if k == ENOENT and place in state_places else (False,)):
+                    for reps in reps_set:
+                        f = {'kind': place}
+                        if place in ('write', 'read'):
+                            f['j'] = 0
+                        if k is not None:
+                            f['errno'] = k
+                        if state:
+                            f['state'] = True
+                        probe = {'op': op, 'data': data.hex(), 'plan': [f] * reps,
+                                 'old': None if (state or op == 'download' or reps % 2) else b'previous object'.hex()}
+                        obs = run_plain(probe, scratch)
+                        out.evaluations += 1
+                        out.count(f'probe:local-{op}:{place}')
+                        out.count('probe:local-plain:errno-' + errno_name(k) + ('-as-directory-state' if state else ''))
+                        for sig, what in oracle_plain(probe, obs, budget):
+                            out.violation(sig, f'Local.{op}, fault {json.dumps(f)} × {reps}: {what}', {'kind': 'local-plain-probe', 'probe': probe, 'observed': obs, 'budget': budget})
 
 
 def b2_missing_object_probe(out, budget):
@@ -631,7 +853,7 @@ def d9_recursion_probe(out, reclimit):
 def evaluate(case, obs, m, cfg, out):
     diffs = compare(case, obs, m) if m is not None and 'error' not in m else None
     for sig, what in oracle(case, obs, cfg[case['backend']]):
-        out.violation(sig, f'{case["backend"]} {case["dir"]}load, chunk size {case["chunk"]}, payload {len(case["data"]) // 2} bytes, plan {json.dumps(case["plan"])[:300]}: {what}',
+        out.violation(sig, f'{case["backend"]} {case["dir"]}load, chunk size {case["chunk"]}, payload {len(case["data"]) // 2} bytes, plan {json.dumps(case["plan"])[:300]}{describe_classes(case, obs)}: {what}',
                       {'kind': 'case', 'case': case, 'observed': obs, 'model': m})
     if m is None:
         return
@@ -648,10 +870,14 @@ def run(out, drv, info):
     _patch_sleeps()
     r = rng_for(out.seed, 'C12')
     out.rule = ('case = (backend ∈ {local, S3, B2}, upload_stream | download_stream, payload, chunk size, fault plan = one fault per attempt: kind × position); grid: every '
-                'fault kind × position ∈ {0, 1 chunk, mid, last, after} (thorough: every chunk boundary) × 1 … budget+1 repetitions × payload sizes, plus random mixed plans and '
+                'fault kind × position ∈ {0, 1 chunk, mid, last, after} (thorough: every chunk boundary) × 1 … budget+1 repetitions × payload sizes; every local fault place × '
+                'every OSError class (errno) of the universe the local give-up predicate is tabulated over × {1, budget-1, budget} repetitions, ENOENT also as a state of the '
+                'directory (directory / temp file / object vanished: the OS raises) × 1 … budget+1; every HTTP transport fault × httpx exception class; plus random mixed plans '
+                '(classes mixed inside one plan) and '
                 'cases with the default 128000-byte chunk size; non-trivial = some fault strictly inside the transfer (0 < chunk index < number of chunks); distinct = hash of the case')
     out.assumptions = ['the fake S3 / B2 services follow the published protocols and store an upload only when the body has the declared length (S3: and hashes to the signed digest)',
-                       'a broken connection surfaces as httpx.TransportError, a failing disk as OSError; re-authentication (b2_authorize_account) itself succeeds',
+                       'a broken connection surfaces as a subclass of httpx.TransportError, a failing disk / a directory changed by another process as an OSError of one of the '
+                       'errno classes of `osUniverse` (the class Python derives from the errno); re-authentication (b2_authorize_account) itself succeeds',
                        'faults hit the transfer request (PUT / POST upload / GET object) — faults on b2_get_upload_url are probed with the direct oracle only',
                        'the payload stream starts at position 0; chunk size ≥ 1; backoff, httpx, shutil.copyfileobj, io.BytesIO behave as modelled (validated by the differential runs only)',
                        'one caller per adapter object (no concurrent re-authentication)']
@@ -662,7 +888,8 @@ def run(out, drv, info):
             cfg[b] = drv.ask({'op': 'retry.cfg', 'backend': b}) if drv is not None else {'budget': {'local': 5, 's3': 4, 'b2': 4}[b], 'plainRetryStatus': 429, 'giveupStatus': 403}
         out.extra['extracted_configuration'] = cfg
         budgets = {b: max(1, min(cfg[b]['budget'], 8)) for b in cfg}
-        cases = gen_cases(r, out.tier, budgets)
+        universe = cfg['local'].get('osUniverse') or OS_UNIVERSE_DEFAULT
+        cases = gen_cases(r, out.tier, budgets, universe)
         models = drv.ask_many([model_request(c) for c in cases]) if drv is not None else [None] * len(cases)
         t0 = time.time()
         for case, m in zip(cases, models):
@@ -673,11 +900,23 @@ def run(out, drv, info):
             out.count(f'{case["backend"]}:{case["dir"]}')
             for f in case['plan'][:1]:
                 out.count('first-fault:' + f['kind'] + (':%d' % f['code'] if f['kind'] == 'status' else ''))
+                if case['backend'] == 'local':
+                    out.count('first-fault-class:errno-' + errno_name(f.get('errno')))
+                elif f['kind'] in TRANSPORT_KIND:
+                    out.count('first-fault-class:httpx-' + (f.get('exc') or 'default'))
+            if case['backend'] == 'local':
+                kinds = {errno_name(f.get('errno')) for f in case['plan']}
+                out.count('errno-classes-in-plan:%s' % ('0' if not case['plan'] else '1' if len(kinds) == 1 else '2+'))
+                if any(f.get('errno') == ENOENT for f in case['plan']):
+                    out.count('fault-class:ENOENT:' + ('within-budget' if len(case['plan']) < budgets['local'] else 'at-or-beyond-budget'))
+                if any(f.get('state') for f in case['plan']):
+                    out.count('fault-class:ENOENT-as-directory-state:' + ('raised-by-the-OS' if obs.get('state_faults') else 'fell-back-to-raising'))
             out.count('plan-length:' + ('0' if not case['plan'] else '<budget' if len(case['plan']) < budgets[case['backend']] else 'persistent' if len(case['plan']) > LIMIT else '>=budget'))
             out.count('outcome:' + obs['outcome'])
             out.count('position:' + ('inside' if nontrivial else 'edge'))
             evaluate(case, obs, m, cfg, out)
         out.extra['case_loop_s'] = round(time.time() - t0, 1)
+        local_plain_probes(out, budgets['local'], universe, scratch)
         nested_url_probes(out, budgets['b2'])
         b2_missing_object_probe(out, budgets['b2'])
         d9_recursion_probe(out, 160 if out.tier == 'quick' else 400)
@@ -714,6 +953,20 @@ def replay(path, drv):
         if not o.violations:
             print('replay: the call ended within the budget')
         return 1 if o.violations else 0
+    if rp.get('kind') == 'local-plain-probe':
+        scratch = WORK / str(os.getpid()) / 'c12-replay'
+        try:
+            budget = drv.ask({'op': 'retry.cfg', 'backend': 'local'})['budget'] if drv is not None else rp.get('budget', 5)
+            obs = run_plain(rp['probe'], scratch)
+            bad = oracle_plain(rp['probe'], obs, max(1, budget))
+            print('replay: observed', json.dumps(obs)[:1500])
+            for sig, what in bad:
+                print('replay:', sig, '—', what)
+            if not bad:
+                print('replay: the direct oracle holds on this probe')
+            return 1 if bad else 0
+        finally:
+            shutil.rmtree(WORK / str(os.getpid()), ignore_errors=True)
     if rp.get('kind') != 'case':
         print('replay kind not supported:', rp.get('kind'))
         return 2
